@@ -419,11 +419,25 @@ def o_construct(case):
             y2 = ys2[case["which"] % len(ys2)]
             pair = [(x2 + P, y2), (x2, y2 + P), (x2 + P, y2 + P), (x2 - P, y2), (x2, y2 - P)][case["delta"] % 5]
             want_ok, label = False, "pair:unreduced-coordinate"
+        elif kind == "pair-foreign-point":
+            # the pair arrives as a Point object - of another curve: a perfectly valid point there, off secp256k1
+            from pycoin.ecdsa.secp256r1 import secp256r1_generator
+            pair = secp256r1_generator * (case["x"] % (2**200) + 1)
+            if CURVE.on_curve(tuple(pair)):
+                return ["pair:foreign-point-happens-to-be-on-curve"]
+            want_ok, label = False, "pair:off-curve-as-Point-object-of-another-curve"
         else:  # pair-no-point-x
             xx = _first_x_without_point(x + 1)
             pair, want_ok, label = (xx, y), False, "pair:off-curve"
+    if kind == "pair-on-curve" and case.get("form"):
+        # the same on-curve pair handed over as a Point object of the right curve (keys.public takes tuples; a Point is one)
+        from pycoin.ecdsa.secp256k1 import secp256k1_generator
+        pair_arg = secp256k1_generator.Point(*pair)
+        label += ":as-Point"
+    else:
+        pair_arg = pair
     try:
-        k = net.keys.public(pair, is_compressed=case.get("compressed", True))
+        k = net.keys.public(pair_arg, is_compressed=case.get("compressed", True))
         err = None
     except InvalidPublicPairError:
         k, err = None, "InvalidPublicPairError"
@@ -449,6 +463,8 @@ def cases_construct(tier):
         yield {"net": code, "kind": "pair-off-curve-y", "x": 1, "which": 0, "delta": 0}
         yield {"net": code, "kind": "pair-no-point-x", "x": 1, "which": 1, "delta": 0}
         yield {"net": code, "kind": "pair-on-curve", "x": 1, "which": 1, "delta": 0}
+        yield {"net": code, "kind": "pair-on-curve", "x": 1, "which": 1, "delta": 0, "form": 2}
+        yield {"net": code, "kind": "pair-foreign-point", "x": 4, "which": 0, "delta": 0}
 
 
 def s_construct():
@@ -456,9 +472,10 @@ def s_construct():
                      st.integers(N - 3, N + 3), st.integers(-3, 3))
     e = st.builds(lambda net, d, c: {"net": net, "kind": "exponent", "d": d, "compressed": c}, st.sampled_from(NET_CODES), exps, st.booleans())
     pk = st.builds(lambda net, kind, x, w, dl, c: {"net": net, "kind": kind, "x": x, "which": w, "delta": dl, "compressed": c},
-                   st.sampled_from(NET_CODES), st.sampled_from(["pair-none", "pair-on-curve", "pair-off-curve-y", "pair-off-curve-y", "pair-no-point-x", "pair-unreduced"]),
+                   st.sampled_from(NET_CODES), st.sampled_from(["pair-none", "pair-on-curve", "pair-on-curve", "pair-off-curve-y", "pair-off-curve-y", "pair-no-point-x", "pair-unreduced", "pair-foreign-point"]),
                    st.one_of(st.integers(0, 2**32), patterned_256().map(lambda v: v % P)), st.integers(0, 2), st.one_of(st.just(0), st.integers(0, P)),
                    st.booleans())
+    pk = st.builds(lambda c, form: dict(c, form=form), pk, st.sampled_from([0, 0, 2]))
     return st.one_of(e, pk)
 
 
